@@ -749,3 +749,73 @@ pub fn prog_candidates(p: &Prog) -> Vec<Prog> {
     }
     out
 }
+
+
+// ---------------------------------------------------------------- shapes
+
+/// What the generator produced, as classes for the evidence (only the rarer shapes).
+pub fn shape_classes(p: &Prog) -> Vec<String> {
+    let mut v = std::collections::BTreeSet::new();
+    let mut names: Vec<&str> = vec![];
+    let is_comment_edge = |s: &str| {
+        let t = s.trim();
+        t.starts_with("//") || t.starts_with("/*") || t.ends_with("*/") || t.lines().last().map(|l| l.contains("//")).unwrap_or(false)
+    };
+    let mut doc_shapes = |doc: &[String], sty: u8, v: &mut std::collections::BTreeSet<&'static str>| {
+        if !doc.is_empty() && sty & 0x40 != 0 {
+            v.insert("shape:docs-interleaved-with-attributes");
+        }
+        if doc.iter().any(|l| crate::genprog::MD_DOC_LINES.contains(&l.as_str())) {
+            v.insert("shape:markdown-doc-line");
+        }
+    };
+    for m in &p.mods {
+        for b in &m.backends {
+            if b.name == "rust" && (b.prologue.as_deref().map(is_comment_edge).unwrap_or(false) || b.epilogue.as_deref().map(is_comment_edge).unwrap_or(false)) {
+                v.insert("shape:backend-text-with-comment-at-an-edge");
+            }
+        }
+        if m.backends.iter().enumerate().any(|(i, b)| m.backends[..i].contains(b)) {
+            v.insert("shape:repeated-backend-block");
+        }
+        for it in &m.items {
+            match it {
+                Item::Type(t) => {
+                    names.push(&t.name);
+                    doc_shapes(&t.doc, t.sty, &mut v);
+                    for (i, f) in t.fields.iter().enumerate() {
+                        doc_shapes(&f.doc, f.sty, &mut v);
+                        if f.name == "vftable" || f.name.starts_with("_field_") {
+                            v.insert("shape:member-named-like-a-generated-field");
+                        }
+                        if f.base && t.fields.iter().position(|x| x.base) == Some(i) && (i > 0 || f.addr.as_ref().map(|a| a.v != 0).unwrap_or(false)) {
+                            v.insert("shape:first-base-not-at-offset-0");
+                        }
+                    }
+                    if let Some(vt) = &t.vft {
+                        for f in &vt.funcs {
+                            doc_shapes(&f.doc, f.sty, &mut v);
+                        }
+                    }
+                }
+                Item::Enum(e) => {
+                    doc_shapes(&e.doc, e.sty, &mut v);
+                    for x in &e.variants {
+                        doc_shapes(&x.doc, x.sty, &mut v);
+                    }
+                }
+            }
+        }
+        for im in &m.impls {
+            for f in &im.funcs {
+                doc_shapes(&f.doc, f.sty, &mut v);
+            }
+        }
+    }
+    let mut sorted = names.clone();
+    sorted.sort();
+    if sorted.windows(2).any(|w| w[0] == w[1]) {
+        v.insert("shape:same-short-type-name-in-two-modules");
+    }
+    v.into_iter().map(|s| s.to_string()).collect()
+}
